@@ -15,7 +15,42 @@ LEVEL = "exploration"
 
 
 # ---- worker side --------------------------------------------------------------------------------------------------
+def _cli_fn(spec, scratch):
+    """A pipeline that is an in-process CLI command (Cli().parse_args + run), as a long-lived caller would issue it."""
+    import os
+    from ..pipeline import outcome
+    from ..scenario import split_header
+    d = os.path.join(scratch, spec["cli"]["dir"])
+    os.makedirs(d, exist_ok=True)
+    for rel, text in spec["cli"]["files"].items():
+        with open(os.path.join(d, rel), "w", encoding="utf-8") as fh:
+            fh.write(text)
+    argv = [a.replace("{DIR}", d) for a in spec["cli"]["argv"]]
+
+    def go():
+        from json_to_models.cli import Cli
+        c = Cli()
+        c.parse_args(argv)
+        return split_header(c.run())[1]
+
+    return lambda: outcome(go)
+
+
+def job_cli_alone(args):
+    import shutil
+    import tempfile
+    from ..pipeline import set_schedule
+    set_schedule(None)
+    scratch = tempfile.mkdtemp(prefix="j2m-sim-", dir="/dev/shm" if __import__("os").path.isdir("/dev/shm") else None)
+    try:
+        return _cli_fn(args["spec"], scratch)()
+    finally:
+        shutil.rmtree(scratch, ignore_errors=True)
+
+
 def job_threads(args):
+    import shutil
+    import tempfile
     from ..pipeline import full, outcome, set_schedule
     from ..threads import Baton
     specs = args["specs"]
@@ -23,9 +58,17 @@ def job_threads(args):
     sched = args.get("sched") or {}
     baton = Baton(len(specs), rng=random.Random(sched.get("seed", 0)), mean_gap=sched.get("mean_gap", 50),
                   p_target=sched.get("p_target", 0.0), replay=args.get("replay"), p_first=sched.get("p_first", 0.0))
-    fns = [(lambda s=s: outcome(full, s["models"], s["options"], s["options"].get("structure", "flat")))
-           for s in specs]
-    results = baton.run(fns, timeout=args.get("timeout", 100))
+    scratch = None
+    if any("cli" in s for s in specs):
+        scratch = tempfile.mkdtemp(prefix="j2m-sim-", dir="/dev/shm" if __import__("os").path.isdir("/dev/shm") else None)
+    try:
+        fns = [(_cli_fn(s, scratch) if "cli" in s else
+                (lambda s=s: outcome(full, s["models"], s["options"], s["options"].get("structure", "flat"))))
+               for s in specs]
+        results = baton.run(fns, timeout=args.get("timeout", 100))
+    finally:
+        if scratch:
+            shutil.rmtree(scratch, ignore_errors=True)
     return {"outcomes": results, "schedule": baton.schedule(), "probe": baton.probe, "steps": baton.step,
             "over_budget": baton.over_budget}
 
@@ -81,6 +124,23 @@ def make_run(seed, i):
         specs[rng.randrange(n)] = {"models": [["Deep", [doc]]],
                                    "options": dict(specs[0]["options"], structure="flat", dict_keys_regex=[], dict_keys_fields=[],
                                                    merge=["exact"], str_types=["int", "float", "bool"])}
+    if n >= 2 and not shared_registry and rng.random() < 0.12:
+        # some (>= 2) threads are in-process CLI commands with --datetime: they register the date/time types in the
+        # process-global default registry (every CLI thread does, before its own detection); the other threads use
+        # explicit registries.  Outcome of a CLI thread = the returned text after the header.
+        import json as _json
+        k = rng.randint(2, n)
+        for t in rng.sample(range(n), k):
+            w = gen_workload(seeds.derive(seed, PROP, i, "cli", t), bulk=0, n_models=1,
+                             scalar_kinds=["str_date", "str_datetime", "str_time", "str_plain", "int", "str_int"], p_hetero=0.4)
+            o = w["options"]
+            argv = ["-m", "Cli%d" % t, "{DIR}/data.json", "--datetime", "-f", o["framework"], "-s", o["structure"],
+                    "--max-strings-literals", str(o["max_literals"])]
+            specs[t] = {"cli": {"dir": "t%d" % t, "files": {"data.json": _json.dumps(w["models"][0][1], ensure_ascii=False)},
+                                "argv": argv}}
+        for t in range(n):
+            if "cli" not in specs[t] and specs[t]["options"].get("str_types") == "default":
+                specs[t]["options"]["str_types"] = ["int", "float", "bool"]
     srng = seeds.derive(seed, PROP, i, "schedule")
     sched = {"seed": srng.getrandbits(48), "mean_gap": srng.choice([2, 3, 10, 30, 100, 300, 1000, 3000]),
              "p_target": srng.choice([0.0, 0.2, 0.5]), "p_first": srng.choice([0.0, 0.3, 0.7])}
@@ -91,11 +151,31 @@ def make_run(seed, i):
 
 
 def ref_job(spec):
+    if "cli" in spec:
+        return {"spec": spec}
     return {"models": spec["models"], "options": spec["options"]}
 
 
+def ref_fn(spec):
+    return "checks.c15:job_cli_alone" if "cli" in spec else "pipeline:job_full"
+
+
 def ref_outcome(res, spec):
+    if "cli" in spec:
+        return unwrap(res)
     return unwrap(res)[spec["options"].get("structure", "flat")]
+
+
+def ref_map(pool, specs, timeout=60):
+    """Alone-run outcomes of a list of pipeline specs (library pipelines and CLI commands)."""
+    out = [None] * len(specs)
+    for fn in ("pipeline:job_full", "checks.c15:job_cli_alone"):
+        idx = [k for k, s in enumerate(specs) if ref_fn(s) == fn]
+        if idx:
+            res = pool.map(fn, [ref_job(specs[k]) for k in idx], timeout=timeout)
+            for k, r in zip(idx, res):
+                out[k] = ref_outcome(r, specs[k])
+    return out
 
 
 def mismatches(refs, outs):
@@ -129,8 +209,7 @@ def violation_key(ref, out):
 
 def evaluate(pool, run, replay=None, timeout=120):
     """-> (refs, result of the thread job)"""
-    refs = [ref_outcome(r, s) for r, s in
-            zip(pool.map("pipeline:job_full", [ref_job(s) for s in run["specs"]], timeout=60), run["specs"])]
+    refs = ref_map(pool, run["specs"])
     args = {"specs": run["specs"], "sched": run.get("sched"), "replay": replay, "timeout": timeout - 20}
     res = unwrap(pool.map("checks.c15:job_threads", [args], timeout=timeout)[0])
     return refs, res
@@ -144,6 +223,8 @@ def minimise(pool, run, res, refs, bad):
     # 1. degenerate schedule: the failing pipeline alone on one worker thread, no switch
     single = {"specs": [spec]}
     r1, o1 = evaluate(pool, single, replay={"first": 0, "switches": [], "handoffs": {}})
+    if judged(o1) and mismatches(r1, o1["outcomes"]) and "cli" in spec:
+        return single, {"first": 0, "switches": [], "handoffs": {}}, r1, o1, [0]
     if judged(o1) and mismatches(r1, o1["outcomes"]):
         def test_batch(cands):
             jobs_ref = pool.map("pipeline:job_full", [ref_job({"models": c["models"], "options": c["options"]})
@@ -213,15 +294,15 @@ def run(ctx):
     evaluations = 0
     skipped_over_budget = 0
     with Pool(ctx.jobs, instrument=True) as pool:
-        ref_jobs, index = [], []
+        flat, index = [], []
         for i, r in enumerate(runs):
             for t, s in enumerate(r["specs"]):
-                ref_jobs.append(ref_job(s))
+                flat.append(s)
                 index.append((i, t))
-        ref_res = pool.map("pipeline:job_full", ref_jobs, timeout=60)
+        flat_refs = ref_map(pool, flat)
         refs = [[None] * len(r["specs"]) for r in runs]
-        for (i, t), res in zip(index, ref_res):
-            refs[i][t] = ref_outcome(res, runs[i]["specs"][t])
+        for (i, t), ro in zip(index, flat_refs):
+            refs[i][t] = ro
         thr = pool.map("checks.c15:job_threads",
                        [{"specs": r["specs"], "sched": r["sched"]} for r in runs], timeout=150)
         reported = set()
@@ -242,8 +323,7 @@ def run(ctx):
                 samples.append({"run": i, "threads": n, "sched": r["sched"], "steps": res["steps"],
                                 "switches_first10": res["schedule"]["switches"][:10],
                                 "n_switches": len(res["schedule"]["switches"]),
-                                "thread0_models_excerpt": str(r["specs"][0]["models"])[:300],
-                                "thread0_options": r["specs"][0]["options"]})
+                                "thread0_excerpt": str(r["specs"][0])[:400]})
             skipped_over_budget += bool(res.get("over_budget"))
             bad = mismatches(refs[i], res["outcomes"])
             if bad:
